@@ -252,6 +252,10 @@ def source(ck, tier, seed):
     # prefix operators are the cheapest way to nest (one byte a level): 3 MB of them, in both tiers
     for kind in ("neg", "not"):
         nest.append({"cid": len(feed) + len(nest), "what": {"kind": "nest/" + kind, "n": 3000000}, "text": nest_source(kind, 3000000)})
+    if quick:
+        # (the thorough tier has every construct at 10^6) a chain of binary operators is built by a loop in the parser and
+        # walked by recursion in the compiler
+        nest.append({"cid": len(feed) + len(nest), "what": {"kind": "nest/binary-chain", "n": 1000000}, "text": nest_source("binary-chain", 1000000)})
     cp = os.path.join(work, "src-feed.ndjson")
     with open(cp, "w") as f:
         for c in feed:
